@@ -70,7 +70,9 @@ extern "C" PTRef stub_mkBinaryEq(Logic * l, PTRef a, PTRef b) { return l->Logic:
 
 template<class F> static size_t vslot(F f) { uintptr_t raw[2]; memcpy(raw, &f, sizeof raw); return (raw[0] - 1) / sizeof(void *); }
 
-static uint64_t logic_mem[(sizeof(Logic) + 7) / 8];
+// raw, correctly typed storage for the Logic object: the union member is never constructed (typed fields let CBMC propagate constants)
+union LogicBox { Logic l; LogicBox() {} ~LogicBox() {} };
+static LogicBox logic_box;
 static void * fake_vt[96];
 static Logic * L;
 
@@ -103,7 +105,7 @@ static void build_universe() {
     }
     n_nodes = UK; bad_ref = overflow = bad_sym = false; created = 0;
     // Logic object in raw storage: only the fields the constructors read are filled
-    L = reinterpret_cast<Logic *>(logic_mem);
+    L = &logic_box.l;
     fake_vt[vslot(&Logic::termSort)] = (void *)&stub_termSort;
     fake_vt[vslot(static_cast<PTRef (Logic::*)(PTRef, PTRef)>(&Logic::mkBinaryEq))] = (void *)&stub_mkBinaryEq;
     *reinterpret_cast<void **>(L) = (void *)fake_vt;
